@@ -236,8 +236,8 @@ var (
 
 var baseTime = time.Date(2021, 3, 4, 5, 6, 7, 0, time.UTC)
 
-var keyAlphabet = []string{"a", "b", "k1", "x:ab", "p/q", "z z"}
-var storeAlphabet = []string{"acc", "bank", "s/t"}
+var keyAlphabet = []string{"a", "b", "k1", "x:ab", "p/q", "z z", "a+b", "a b", "c%d", "m:n", "%2B"}
+var storeAlphabet = []string{"acc", "bank", "s/t", "u+v"}
 
 func genTx(r *rand.Rand) types.Tx {
 	if r.Intn(12) == 0 {
